@@ -5,13 +5,18 @@ mutable cells, so that no two live histograms share one and an in-place operatio
 `sharing(regs)` lists the mutable components that two live objects of the IMPLEMENTATION share right now -- numpy memory
 of frequencies / errors2 (np.shares_memory, so views count), fixed-width binning objects (rewritten in place when an adaptive
 histogram grows; a non-adaptive one can be switched to adaptive), the meta-data dict, and every mutable container NESTED
-inside the meta-data values (lists, dicts, sets, arrays, ... found by walking the values recursively and comparing object
+inside the meta-data values (lists, dicts, sets, arrays, deques, bytearrays, instances of small user classes, ... found by
+walking the values recursively -- THROUGH tuples / namedtuples / frozensets / object attributes too -- and comparing object
 identity, so a shared nested list is seen before any edit makes it visible) -- and the components one object
 shares with itself (frequencies and errors2 being one array).  Immutable sharing (static binnings, the INVALID_STATISTICS
 singleton, strings / numbers / tuples of such inside the meta data) is not listed.  A non-empty list is a difference between
 model and implementation, not yet a violation: the check then looks for a mutation that makes the sharing visible
 (C12.neighbours; the nested meta-data stream of C12 edits the shared container through one of the objects)."""
 from __future__ import annotations
+
+import collections
+import dataclasses
+import types
 
 import numpy as np
 
@@ -28,11 +33,52 @@ def _mutable_binning(b) -> bool:
 
 
 # ------------------------------------------------------------------------------------------- nested meta-data values
-_MUTABLE_BUILTINS = (list, dict, set, bytearray, np.ndarray)
+_MUTABLE_BUILTINS = (list, dict, set, bytearray, np.ndarray, collections.deque)
+_MAX_DEPTH = 12
+
+
+def attrs_of(v):
+    """the instance attributes of a small user object (dataclass instance, types.SimpleNamespace, any plain instance of a
+    class defined outside builtins / numpy carrying a __dict__), else None"""
+    if isinstance(v, type) or isinstance(v, (types.ModuleType, types.FunctionType, types.MethodType, types.BuiltinFunctionType)):
+        return None
+    if isinstance(v, (str, bytes, int, float, complex, tuple, frozenset, np.generic)) or isinstance(v, _MUTABLE_BUILTINS):
+        return None
+    if hasattr(v, "frequencies") and hasattr(v, "bins"):            # a histogram stored in the meta data: its own object
+        return None
+    d = getattr(v, "__dict__", None)
+    if not isinstance(d, dict):
+        return None
+    if isinstance(v, types.SimpleNamespace) or (dataclasses.is_dataclass(v)) or type(v).__module__ not in ("builtins", "numpy"):
+        return d
+    return None
+
+
+def _frozen(v) -> bool:
+    p = getattr(type(v), "__dataclass_params__", None)
+    return bool(p is not None and getattr(p, "frozen", False))
 
 
 def _is_mutable_container(v) -> bool:
-    return isinstance(v, _MUTABLE_BUILTINS)
+    if isinstance(v, _MUTABLE_BUILTINS):
+        return True
+    return attrs_of(v) is not None and not _frozen(v)
+
+
+def stable_elems(v) -> list:
+    """the elements of a set / frozenset in an order that does not depend on hashes or addresses as long as the reprs
+    of the elements are content-based (ties keep the iteration order)"""
+    return sorted(v, key=_stable_key)
+
+
+def _stable_key(x):
+    try:
+        r = repr(x)
+    except Exception:
+        r = type(x).__name__
+    if " at 0x" in r:                       # the default object repr: the address says nothing
+        r = type(x).__name__
+    return (type(x).__name__, r)
 
 
 def _meta_of(h):
@@ -44,9 +90,13 @@ def _meta_of(h):
 
 
 def meta_containers(h) -> list:
-    """every mutable container reachable from the meta-data VALUES of `h` (the meta-data dict itself is not listed), as
-    (path, object) in a deterministic order: keys of a dict in the order of their repr, items of a list / tuple in order.
-    A path is the list of keys / indices leading from the meta-data dict to the object.  Cycles are cut."""
+    """every mutable object reachable from the meta-data VALUES of `h` (the meta-data dict itself is not listed), as
+    (path, object) in a deterministic order.  The walk goes through the immutable containers as well -- tuples, namedtuples,
+    frozensets, frozen dataclasses -- since they can hold mutable objects: keys of a dict in the order of their repr, items
+    of a list / tuple / deque in order, elements of a set / frozenset in the order of their repr, instance attributes of
+    dataclass / SimpleNamespace / plain user objects in the order of their names.  A path is the list of steps leading from
+    the meta-data dict to the object: a key / an index, ["attr", name] for an attribute, ["elem", n] for the n-th element
+    (stable order) of a set / frozenset.  Cycles are cut; an object reachable twice is listed under its first path."""
     md = _meta_of(h)
     out: list = []
     if md is None:
@@ -54,7 +104,10 @@ def meta_containers(h) -> list:
     seen: set = set()
 
     def walk(v, path):
-        if isinstance(v, (list, dict, tuple)) or _is_mutable_container(v):
+        if len(path) > _MAX_DEPTH:
+            return
+        attrs = attrs_of(v)
+        if isinstance(v, (list, dict, tuple, frozenset)) or attrs is not None or _is_mutable_container(v):
             if id(v) in seen:
                 return
             seen.add(id(v))
@@ -63,17 +116,44 @@ def meta_containers(h) -> list:
         if isinstance(v, dict):
             for k in sorted(v, key=repr):
                 walk(v[k], path + [k])
-        elif isinstance(v, (list, tuple)):
-            for n, item in enumerate(v):
+        elif isinstance(v, (list, tuple, collections.deque)):
+            for n, item in enumerate(list(v)):
                 walk(item, path + [n])
+        elif isinstance(v, (set, frozenset)):
+            for n, item in enumerate(stable_elems(v)):
+                walk(item, path + [["elem", n]])
+        elif attrs is not None:
+            for k in sorted(attrs, key=repr):
+                walk(attrs[k], path + [["attr", k]])
 
     for k in sorted(md, key=repr):
         walk(md[k], [k])
     return out
 
 
+def follow_path(md, path):
+    """the object a path of meta_containers leads to"""
+    v = md
+    for p in path:
+        if isinstance(p, (list, tuple)) and len(p) == 2 and p[0] == "attr":
+            v = getattr(v, p[1])
+        elif isinstance(p, (list, tuple)) and len(p) == 2 and p[0] == "elem":
+            v = stable_elems(v)[p[1]]
+        else:
+            v = v[p]
+    return v
+
+
 def path_text(path) -> str:
-    return "meta_data" + "".join(f"[{p!r}]" for p in path)
+    out = "meta_data"
+    for p in path:
+        if isinstance(p, (list, tuple)) and len(p) == 2 and p[0] == "attr":
+            out += f".{p[1]}"
+        elif isinstance(p, (list, tuple)) and len(p) == 2 and p[0] == "elem":
+            out += f"{{element {p[1]}}}"
+        else:
+            out += f"[{p!r}]"
+    return out
 
 
 def nested_meta_shared(x, y, cx=None, cy=None) -> list:
